@@ -730,6 +730,6 @@ ORACLES = {"law": case_law, "cross": case_cross, "space": case_space}
 
 
 def run(ctx):
-    ctx.drive("law", law_cases(), case_law, quick=1400, thorough=6000)
-    ctx.drive("cross", cross_cases(), case_cross, quick=700, thorough=3000)
-    ctx.drive("space", space_cases(), case_space, quick=500, thorough=2500)
+    ctx.drive("law", law_cases(), case_law, quick=1400, thorough=4000)
+    ctx.drive("cross", cross_cases(), case_cross, quick=700, thorough=2000)
+    ctx.drive("space", space_cases(), case_space, quick=500, thorough=1500)
